@@ -184,9 +184,40 @@ def expected_chain(sigs_derived_first):
 _chain_n = [0]
 
 
-def make_chain(sig_base_first, root):
-    """Build the class chain base-first; returns ('warning-at-creation', level) or the most derived class."""
+def _warm(cls):
+    """History step: an instance of a class of the chain goes through remote_pickle before the next class is defined
+    (whatever that dump does - result, Warning or error - is not what is being judged here)."""
+    import pyworkers.remote_pickle as rp
+    try:
+        o = cls()
+        o.v = 0
+        rp.dumps(o)
+    except BaseException:  # noqa
+        pass
+
+
+def make_chain(sig_base_first, root, warm=False, shape='linear'):
+    """Build the class chain base-first; returns ('warning-at-creation', level) or the most derived class.
+    shape 'mixin': the levels are independent classes and the class under test lists them as its bases (most derived first),
+    so its MRO reads like the linear chain. warm: every class already defined has had an instance dumped by remote_pickle
+    before the next one is created (the verdict about a class must not depend on what was pickled earlier)."""
     from pyworkers.remote_pickle import SupportRemoteGetState
+    if shape == 'mixin':
+        parts = []
+        for s in sig_base_first:
+            c = make_chain((s,), root, warm=warm)
+            assert not isinstance(c, tuple)
+            if warm:
+                _warm(c)
+            parts.append(c)
+        _chain_n[0] += 1
+        name = 'CHX%d_%s_%s' % (_chain_n[0], root, ''.join(sig_base_first))
+        try:
+            cls = type(parts[0])(name, tuple(reversed(parts)), {'__module__': G.__name__, '__qualname__': name})
+        except Warning:
+            return ('warning-at-creation', len(sig_base_first) - 1)
+        G.__dict__[name] = cls
+        return cls
     bases = (SupportRemoteGetState,) if root == 'meta' else (object,)
     cls = None
     for lvl, s in enumerate(sig_base_first):
@@ -245,6 +276,8 @@ def make_chain(sig_base_first, root):
         holder.append(cls)
         G.__dict__[name] = cls
         bases = (cls,)
+        if warm and lvl + 1 < len(sig_base_first):
+            _warm(cls)
     return cls
 
 
@@ -347,21 +380,25 @@ def run(ctx):
     nchains = 0
     for depth in (1, 2, 3):
         for chain in itertools.product(alphabet, repeat=depth):      # base first
-            for root in ('meta', 'duck'):
+            for root, warm, shape in itertools.product(('meta', 'duck'), (False, True), ('linear', 'mixin')):
+                if depth == 1 and (warm or shape == 'mixin'):
+                    continue          # nothing is defined after a first dump / nothing to mix
                 nchains += 1
                 ctx.count()
                 exp = expected_chain(list(reversed(chain)))
-                if root == 'meta' and any(expected_chain(list(reversed(chain[:i + 1]))) == 'warning' for i in range(depth)):
+                if shape == 'linear' and root == 'meta' and any(expected_chain(list(reversed(chain[:i + 1]))) == 'warning' for i in range(depth)):
                     exp = 'warning'     # with the metaclass an inconsistent prefix cannot even be created
                 case = {'chain_base_first': ''.join(chain), 'root': root}
-                cls = make_chain(chain, root)
+                if warm or shape != 'linear':
+                    case.update(warm=warm, shape=shape)
+                cls = make_chain(chain, root, warm=warm, shape=shape)
                 got = None
                 if isinstance(cls, tuple):
                     got = 'warning'
                     # the warning must not come earlier than the first inconsistent level
                     exp_prefix = [expected_chain(list(reversed(chain[:i + 1]))) for i in range(depth)]
                     first_bad = exp_prefix.index('warning') if 'warning' in exp_prefix else None
-                    if first_bad is None or cls[1] != first_bad:
+                    if shape == 'linear' and (first_bad is None or cls[1] != first_bad):
                         got = 'warning-at-wrong-level'
                 else:
                     o = cls()
@@ -395,9 +432,9 @@ def run(ctx):
                         elif got != g2:
                             got = '%s-then-%s' % (got, g2)
                 ctx.outcome('chain:%s' % got)
-                ctx.distinct(('w', chain, root))
+                ctx.distinct(('w', chain, root, warm, shape))
                 if got != exp:
-                    sig = 'GRAPH/getstate-chain/expected-%s-got-%s/%s' % (exp, got, root)
+                    sig = 'GRAPH/getstate-chain/expected-%s-got-%s/%s%s%s' % (exp, got, root, '/bases-pickled-before' if warm else '', '/as-mixins' if shape == 'mixin' else '')
                     sigs[sig] = sigs.get(sig, 0) + 1
                     ctx.violation(sig, case, got, exp, engine='GRAPH')
     ctx.sample({'part': 'getstate-chain', 'chains': nchains, 'alphabet': alphabet})
